@@ -24,7 +24,7 @@ type Scenario struct {
 	Files    []string `json:"files"`    // content specs, files named f0,f1,...
 	Dir      bool     `json:"dir"`      // an (expected) directory d/ with a file in it
 	Symlink  bool     `json:"symlink"`  // an (expected) symlink l -> f0
-	Damage   string   `json:"damage"`   // none|first|last|all|nodirs|symlink
+	Damage   string   `json:"damage"`   // none|first|last|all|nodirs|symlink|structure|rmroot
 	Consumer string   `json:"consumer"` // failfast|writer|writer-badpath|printer|healer (variant schedfs)
 	Cap      int      `json:"cap"`      // wound channel capacity (0 = unscaled 1024)
 	Cancel   bool     `json:"cancel"`   // a canceller goroutine exists
@@ -112,6 +112,13 @@ func prepare(sc Scenario, scratch string, seed int64) (*prepared, error) {
 	case "symlink":
 		os.Remove(filepath.Join(dir, "l"))
 		p.damaged = sc.Symlink
+	case "structure":
+		// directory and symlink both gone: two wounds (and, with the file below the
+		// directory, a third) are found by the directory and symlink passes, before any file
+		// is looked at
+		os.RemoveAll(filepath.Join(dir, "d"))
+		os.Remove(filepath.Join(dir, "l"))
+		p.damaged = true
 	case "rmroot":
 		// the target directory does not exist at all: the validate worker cannot even
 		// open its pool and reports an error of its own (worker-error path)
@@ -173,17 +180,18 @@ func scenarios(quick bool) []Scenario {
 		{[]string{"=x"}, false, false, -1, 2},
 		{[]string{"=x", "=yy"}, false, true, 2, 1},
 		{[]string{"=x", "", "=zzz"}, true, false, 1, 0},
+		{[]string{"=x"}, true, true, 1, 1},
 		{[]string{"A.=t", "=y"}, false, false, 1, 0},
 	}
 	if quick {
-		builds = builds[:3]
+		builds = builds[:4]
 	}
 	var per [][]Scenario
 	for bi, b := range builds {
 		var list []Scenario
-		dmgs := []string{"none", "first", "last", "all", "nodirs", "symlink", "rmroot"}
+		dmgs := []string{"none", "first", "last", "all", "nodirs", "symlink", "structure", "rmroot"}
 		for _, dmg := range dmgs {
-			if dmg == "nodirs" && !b.dir || dmg == "symlink" && !b.sym {
+			if dmg == "nodirs" && !b.dir || dmg == "symlink" && !b.sym || dmg == "structure" && !(b.dir && b.sym) {
 				continue
 			}
 			if (dmg == "last" || dmg == "all") && len(b.files) == 1 {
@@ -195,7 +203,7 @@ func scenarios(quick bool) []Scenario {
 				}
 				for _, capacity := range []int{1, 2, 0} {
 					// capacities only matter when there can be >= 2 wounds
-					if capacity != 1 && dmg != "all" && dmg != "rmroot" {
+					if capacity != 1 && dmg != "all" && dmg != "rmroot" && dmg != "structure" {
 						continue
 					}
 					if quick && capacity == 2 {
